@@ -1,3 +1,4 @@
+// features.go: feature sets (fixed ones, pairwise covering array, subsets).
 package c02
 
 import (
